@@ -728,6 +728,81 @@ tcp_spec("build", [], [FDIV], calls=[("build_ack_handshake", []), ("build_server
          places=TCP_PLACES + [("self.decrypted_records", "decrypted_records", "List ((Option Bytes) × TRec × Bool)", "r")],
          attr_funcs={("TRec", "metadata"): ("id", "List TPkt"), ("TPkt", "timestamp"): ("id", "Nat")})
 
+# decryptor.py: the control flow and byte arithmetic around the primitive calls, over one state record (`Dec.St`). The AEAD
+# objects are what their constructors got (`AeadObj`), `cipher.decrypt(nonce, data, aad)` is the external `aeadOpen`; logging
+# calls are NOT dropped here: `{key.hex()}` inside their f-strings raises AttributeError for a `None` key (`log_effects`).
+RLV = "TLX.RecordLayer.Version"
+ALG = "TLX.Cipher.Alg"
+CTY = "TLX.RecordLayer.CType"
+RLR = "TLX.RecordLayer.Rec"
+DF = "tlexport/decryptor.py"
+RLV_CONSTS = {f"TlsVersion.{a}": (f"{RLV}.{b}", RLV) for a, b in
+              [("SSL30", "ssl30"), ("TLS10", "tls10"), ("TLS11", "tls11"), ("TLS12", "tls12"), ("TLS13", "tls13")]}
+ALG_CONSTS = {a: (f"{ALG}.{b}", ALG) for a, b in [("AES", "aes"), ("TripleDES", "tdes"), ("Camellia", "camellia"), ("IDEA", "idea"),
+                                                   ("AESCCM", "aesccm"), ("AESGCM", "aesgcm"), ("ChaCha20", "chacha20"),
+                                                   ("ChaCha20Poly1305", "chachaPoly"), ("ARC4", "arc4")]}
+CTY_CONSTS = {f"EncryptionType.{a}": (f"{CTY}.{b}", CTY) for a, b in
+              [("Stream_Cipher", "stream"), ("Block_Cipher", "block"), ("AEAD", "aead"), ("Unknown", "unknown")]}
+OB2 = "Option (Option Bytes)"
+DEC_FIELDS = ([(f"self.{d}_{k}", f"{d}_{k}", "Option Bytes") for d in ("server", "client") for k in ("key", "iv")]
+              + [("self.server_seq", "server_seq", "Nat"), ("self.client_seq", "client_seq", "Nat"),
+                 ("self.last_block_server", "last_block_server", OB2), ("self.last_block_client", "last_block_client", OB2)]
+              + [(f"self.{d}_{k}", f"{d}_{k}", OB2) for d in ("server", "client")
+                 for k in ("handshake_key", "handshake_iv", "application_key", "application_iv")]
+              + [("self.cipher_type", "cipher_type", f"Option {CTY}")])
+DEC_MAYBE = [k for k, _, t in DEC_FIELDS if t == OB2] + ["self.cipher_type"]
+DEC_CFG = [("self.tls_version", "tls_version", RLV, "r"), ("self.bulk_alg", "bulk_alg", ALG, "r"), ("self.mac_length", "mac_length", "Nat", "r"),
+           ("self.tag_length", "tag_length", "Nat", "r"), ("self.block_length", "block_length", "Nat", "r"),
+           ("self.encrypt_then_mac", "encrypt_then_mac", "Bool", "r"), ("self.compression_method", "compression_method", "Nat", "r")]
+DEC_PLACES = [(k, f, t, "s") for k, f, t in DEC_FIELDS] + DEC_CFG
+DEC_REC_ATTRS = {(RLR, "binary"): (f"{RLR}.body", "Bytes"), (RLR, "raw"): (f"{RLR}.raw", "Bytes"), (RLR, "record_version"): (f"{RLR}.ver", "Bytes"),
+                 (RLR, "record_length"): (f"{RLR}.len", "Bytes"), (RLR, "record_type"): ("Dec.recType", "Nat")}
+AEADX = ("aeadOpen", "AeadObj → Bytes → Bytes → Bytes → Except PyRt.Err Bytes")
+INFLX = ("inflate", "Bytes → Bool → Except PyRt.Err Bytes")
+DEC_DECL = ("/-- an AEAD cipher object as constructed: the class, the key and (AESCCM) the tag length -/\n"
+            f"structure AeadObj where\n  alg : {ALG}\n  key : Bytes\n  tag : Option Nat\n  deriving DecidableEq, Repr\n\n"
+            f"/-- `record.record_type` -/\ndef Dec.recType (r : {RLR}) : Nat := r.typ.toNat\n")
+GROUPS["Decrypt"] = dict(imports=["TLX.PyRt", "TLX.RecordLayer"], decls=[DEC_DECL], options=["set_option linter.unusedVariables false"])
+
+
+def dec_state_decl():
+    return ("/-- the attributes of a `Decryptor` its methods write -/\nstructure Dec.St where\n"
+            + "".join(f"  {f} : {py2lean.ty(t)}\n" for _, f, t in DEC_FIELDS) + "  deriving DecidableEq, Repr\n")
+
+
+SPECS.append(dict(name="Dec.byte_xor", group="Decrypt", file=DF, func="byte_xor", params=[("a", "Bytes"), ("b", "Bytes")], ret="Bytes",
+                  theorem="Decr.byte_xor_eq_model"))
+SPECS.append(dict(name="Dec.St", group="Decrypt", kind="raw", file=DF, func=None, gen=dec_state_decl, theorem="Decr.decrypt_eq_model"))
+DEC_ROUTINES = ["decrypt_tls13_aead", "decrypt_tls13_stream_cipher", "decrypt_tls12_chacha20", "decrypt_generic_stream_cipher",
+                "decrypt_tls12_aead", "decrypt_tls12_block_cipher", "decrypt_last_block_iv_cbc"]
+ROUT_T = f"Dec.St → {RLR} → Bool → PyRt.Res Dec.St Bytes"
+
+
+def dec_spec(func, params, ret="None", ext=(), **more):
+    spec = dict(name="Dec." + func, group="Decrypt", file=DF, func="Decryptor." + func, params=params, ret=ret,
+                state=dict(type="Dec.St", param="st"), always_res=True, places=DEC_PLACES, maybe_attrs=DEC_MAYBE, log_effects=True,
+                consts={**RLV_CONSTS, **ALG_CONSTS, **CTY_CONSTS}, attr_funcs=DEC_REC_ATTRS, externals=list(ext),
+                theorem=f"Decr.{func}_eq_model",
+                calls={"byte_xor": dict(lean="Dec.byte_xor", args=["Bytes", "Bytes"], ret="Bytes", raises=True),
+                       "AESGCM": dict(fmt="(AeadObj.mk TLX.Cipher.Alg.aesgcm {0} none)", args=["Bytes"], ret="AeadObj"),
+                       "AESCCM": dict(fmt="(AeadObj.mk TLX.Cipher.Alg.aesccm {0} (some {1}))", args=["Bytes", "Nat"], ret="AeadObj"),
+                       "ChaCha20Poly1305": dict(fmt="(AeadObj.mk TLX.Cipher.Alg.chachaPoly {0} none)", args=["Bytes"], ret="AeadObj"),
+                       "self.inflate": dict(lean="inflate", args=["Bytes", "Bool"], ret="Bytes", raises=True)},
+                obj_methods={("AeadObj", "decrypt"): dict(lean="aeadOpen", args=["Bytes", "Bytes", "Bytes"], ret="Bytes", raises=True)})
+    spec.update(more)
+    SPECS.append(spec)
+
+
+DR = [("record", RLR), ("isserver", "Bool")]
+dec_spec("get_cipher_type", [])
+dec_spec("update_keys", [("isserver", "Bool")])
+for _r in ("decrypt_tls13_aead", "decrypt_tls13_stream_cipher", "decrypt_tls12_chacha20", "decrypt_tls12_aead"):
+    dec_spec(_r, DR, ret="Bytes", ext=[AEADX, INFLX], locals={"cipher": "AeadObj"})
+# the dispatch: the seven routines are externals here (the four above are translated themselves, the other three — the RC4
+# context that two attributes alias, the CBC routines with `int(self.block_length / 8)` — are not)
+dec_spec("decrypt", DR, ret="Option Bytes", ext=[(r, ROUT_T) for r in DEC_ROUTINES],
+         state_calls={"self." + r: dict(kind="extshared", lean=r, args=[RLR, "Bool"], ret="Bytes") for r in DEC_ROUTINES})
+
 THEOREMS = _uniq(theorem_of(s) for s in SPECS)
 
 
@@ -748,7 +823,7 @@ MODULES = group_modules(GROUPS)          # all groups (`TLX.Props.Translated` im
 
 # property → the groups whose translated functions its model functions are (what the check proves besides its own modules)
 CHECK_GROUPS = {
-    "C01": ["TlsSess", "Suites", "TlsSess2"],
+    "C01": ["TlsSess", "Suites", "TlsSess2", "Decrypt"],
     "C02": ["QuicDissect", "QuicSess", "Pn", "Varint", "Frames", "QuicDissect2"],
     "C03": ["TlsSess", "QuicDissect", "Varint", "QuicDissect2", "TlsSess2"],
     "C04": ["Demux", "QuicSess", "QuicDissect"],
@@ -1254,6 +1329,121 @@ def _bld_cases(rng, call):
     return out
 
 
+# ---- decryptor.py (group Decrypt): toy AEAD classes on both sides; logging stays real (its f-strings are evaluated)
+TOY_AEAD = ("(fun (o : Gen.Py.AeadObj) (nonce ct aad : TLX.Bytes) => if ct.length < 1 ∨ o.key.length < 1 ∨ nonce.length < 1 then Except.error PyRt.Err.value "
+            "else Except.ok (ct.map fun b => b ^^^ o.key.headD 0 ^^^ nonce.getLastD 0 ^^^ UInt8.ofNat aad.length ^^^ "
+            "UInt8.ofNat (match o.alg with | TLX.Cipher.Alg.aesgcm => 1 | TLX.Cipher.Alg.aesccm => 2 + o.tag.getD 0 | _ => 3)))")
+TOY_INFLATE = "(fun (b : TLX.Bytes) (_s : Bool) => Except.ok b)"
+
+
+def _toy_aead_cls(tagbyte):
+    class C:
+        def __init__(self, key, tag_length=None):
+            self.key, self.t = bytes(key), (tagbyte if tag_length is None else 2 + tag_length)
+
+        def decrypt(self, nonce, data, aad):
+            if len(data) < 1 or len(self.key) < 1 or len(nonce) < 1:
+                raise ValueError("toy")
+            return bytes(x ^ self.key[0] ^ nonce[-1] ^ (len(aad) % 256) ^ (self.t % 256) for x in data)
+    return C
+
+
+def _dec_cases(rng, call):
+    import importlib
+    from types import SimpleNamespace as NS
+    dm = importlib.import_module("tlexport.decryptor")
+    from tlexport.tlsversion import TlsVersion as TV
+    from tlexport.tlsrecord import TlsRecord
+    saved = (dm.AESGCM, dm.AESCCM, dm.ChaCha20Poly1305)
+    G, C_, P_ = _toy_aead_cls(1), _toy_aead_cls(2), _toy_aead_cls(3)
+    dm.AESGCM, dm.AESCCM, dm.ChaCha20Poly1305 = G, C_, P_
+    out = []
+
+    def rb(lo, hi):
+        return bytes(rng.randrange(256) for _ in range(rng.randint(lo, hi)))
+
+    def ob(x):
+        return "none" if x is None else f"(some {_b(x)})"
+    MISSING = object()
+
+    def oob(x):
+        return "none" if x is MISSING else f"(some {ob(x)})"
+    try:
+        a, b_ = rb(0, 5), rb(0, 5)
+        k, v = call(dm.byte_xor, a, b_)
+        out.append(("Dec.byte_xor", f"{_b(a)} {_b(b_)}", f".ok {_b(v)}" if k == "ok" else f".error .{v}"))
+        algs = [(dm.AES, "aes"), (dm.TripleDES, "tdes"), (dm.Camellia, "camellia"), (dm.IDEA, "idea"), (C_, "aesccm"), (G, "aesgcm"),
+                (dm.ChaCha20, "chacha20"), (P_, "chachaPoly"), (dm.ARC4, "arc4"), (None, "none")]
+        vers = [(TV.SSL30, "ssl30"), (TV.TLS10, "tls10"), (TV.TLS11, "tls11"), (TV.TLS12, "tls12"), (TV.TLS13, "tls13")]
+        ctys = {"EncryptionType.Stream_Cipher": "stream", "EncryptionType.Block_Cipher": "block", "EncryptionType.AEAD": "aead", "EncryptionType.Unknown": "unknown"}
+        for func in ("get_cipher_type", "update_keys", "decrypt_tls13_aead", "decrypt_tls13_stream_cipher", "decrypt_tls12_chacha20", "decrypt_tls12_aead", "decrypt"):
+            alg = rng.choice(algs if func in ("get_cipher_type", "decrypt") else [algs[4], algs[5], algs[5], algs[7], algs[0]])
+            ver = rng.choice(vers)
+            o = object.__new__(dm.Decryptor)
+            o.bulk_alg, o.tls_version = alg[0], ver[0]
+            o.mac_length, o.tag_length, o.block_length = rng.choice([0, 20, 32]), rng.choice([8, 16]), rng.choice([0, 64, 128])
+            o.encrypt_then_mac, o.compression_method = rng.random() < 0.5, 0
+            for dname in ("server", "client"):
+                setattr(o, dname + "_key", rb(1, 3) if rng.random() < 0.85 else None)
+                setattr(o, dname + "_iv", rng.choice([rb(8, 12), rb(12, 12), rb(0, 7)]) if rng.random() < 0.9 else None)
+                setattr(o, dname + "_seq", rng.choice([0, 1, 7, 2 ** 64 - 1, 2 ** 64]))
+                if rng.random() < 0.85:
+                    for kname in ("handshake_key", "handshake_iv", "application_key", "application_iv"):
+                        setattr(o, f"{dname}_{kname}", rb(1, 2) if rng.random() < 0.9 else None)
+            if func != "get_cipher_type":
+                o.cipher_type = rng.choice([dm.EncryptionType.AEAD, dm.EncryptionType.Stream_Cipher, dm.EncryptionType.Block_Cipher, dm.EncryptionType.Unknown])
+                if func == "decrypt" and rng.random() < 0.7:
+                    o.get_cipher_type()
+
+            def state():
+                g = lambda n: getattr(o, n, MISSING)
+                ct = g("cipher_type")
+                return ("{ " + ", ".join(
+                    [f"{d_}_{k_} := {ob(g(d_ + '_' + k_))}" for d_ in ("server", "client") for k_ in ("key", "iv")]
+                    + [f"server_seq := {o.server_seq}, client_seq := {o.client_seq}, last_block_server := none, last_block_client := none"]
+                    + [f"{d_}_{k_} := {oob(g(d_ + '_' + k_))}" for d_ in ("server", "client") for k_ in ("handshake_key", "handshake_iv", "application_key", "application_iv")]
+                    + [f"cipher_type := {'none' if ct is MISSING else '(some TLX.RecordLayer.CType.' + ctys[str(ct)] + ')'}"]) + " }")
+            cfg = (f"TLX.RecordLayer.Version.{ver[1]} TLX.Cipher.Alg.{alg[1]} {o.mac_length} {o.tag_length} {o.block_length} {_bool(o.encrypt_then_mac)} 0")
+            before = state()
+            raw = bytes([rng.choice([0x16, 0x17])]) + b"\x03\x03" + b"\x00\x00" + rb(0, 20)
+            rec = TlsRecord(bytearray(raw), [], False)
+            recl = (f"(⟨{raw[0]}, {_b(raw[1:3])}, {_b(raw[3:5])}, {_b(raw[5:])}, {_b(raw)}⟩ : TLX.RecordLayer.Rec)")
+            srv = rng.random() < 0.5
+            import logging
+            logging.disable(logging.CRITICAL)
+            try:
+                if func == "get_cipher_type":
+                    k, v = call(o.get_cipher_type)
+                    out.append(("Dec.get_cipher_type", f"{cfg} {before}", f".ok () {state()}" if k == "ok" else f".raised .{v} {state()}"))
+                elif func == "update_keys":
+                    k, v = call(o.update_keys, srv)
+                    out.append(("Dec.update_keys", f"{_bool(srv)} {cfg} {before}", f".ok () {state()}" if k == "ok" else f".raised .{v} {state()}"))
+                elif func == "decrypt":
+                    names = ["decrypt_tls13_aead", "decrypt_tls13_stream_cipher", "decrypt_tls12_chacha20", "decrypt_generic_stream_cipher",
+                             "decrypt_tls12_aead", "decrypt_tls12_block_cipher", "decrypt_last_block_iv_cbc"]
+                    for j, nm in enumerate(names):
+                        def toy(record, isserver, j=j):
+                            o.server_seq += j + 1
+                            if (j + len(record.binary)) % 4 == 0:
+                                raise KeyError("toy")
+                            return bytes([j])
+                        setattr(o, nm, toy)
+                    k, v = call(o.decrypt, rec, srv)
+                    toys = " ".join(f"(fun (st : Gen.Py.Dec.St) (r : TLX.RecordLayer.Rec) (_s : Bool) => let st' := {{ st with server_seq := st.server_seq + {j + 1} }}; "
+                                    f"if ({j} + r.body.length) % 4 = 0 then PyRt.Res.raised PyRt.Err.key st' else PyRt.Res.ok [{j}] st')" for j in range(7))
+                    out.append(("Dec.decrypt", f"{toys} {recl} {_bool(srv)} {cfg} {before}",
+                                (f".ok {ob(v)} {state()}") if k == "ok" else f".raised .{v} {state()}"))
+                else:
+                    k, v = call(getattr(o, func), rec, srv)
+                    out.append(("Dec." + func, f"{TOY_AEAD} {TOY_INFLATE} {recl} {_bool(srv)} {cfg} {before}",
+                                f".ok {_b(v)} {state()}" if k == "ok" else f".raised .{v} {state()}"))
+            finally:
+                logging.disable(logging.NOTSET)
+    finally:
+        dm.AESGCM, dm.AESCCM, dm.ChaCha20Poly1305 = saved
+    return out
+
+
 def _sess_case(rng, ses, vers, call):
     """one call of one of the record handlers on a random session state → (lean name, arguments, expected)"""
     import types
@@ -1670,6 +1860,7 @@ def _cases(rng, n):
                         f".ok () {{ packet_buffer := {segs(getattr(me, side + '_packet_buffer'))}, tls_records := {recs}, next_seq := (some {nxt}) }}"
                         if k == "ok" else f".raised .{v} {{ packet_buffer := [], tls_records := [], next_seq := none }}"))
         out.extend(_ks_cases(rng, call))
+        out.extend(_dec_cases(rng, call))
         for _ in range(2):
             out.extend(_bld_cases(rng, call))
         # output builders
